@@ -253,4 +253,59 @@ example : Guard [{ key := 1, mergeable := true, writes := [(1, 5)] },
     rcases hmm with rfl | rfl | rfl <;> simp at hmg <;>
       (obtain ⟨w, hw1, hw2⟩ := hw; simp at hw1; subst hw1; simp at hw2)
 
+/-! ### `removeUnchanged`: sound exactly when a dropped log's Redo is a no-op where it is replayed -/
+
+/-- along the replay, every log judged "not valuable" leaves the state it is applied to unchanged -/
+def DropOk : List VL → (Nat → Int) → Prop
+  | [], _ => True
+  | l :: ls, s => (l.valuable = false → apply l.log s = s) ∧ DropOk ls (apply l.log s)
+
+theorem removeUnchanged_redo_partial : ∀ (ls : List VL) (s : Nat → Int), DropOk ls s →
+    redo (removeUnchanged ls) s = redo (ls.map (·.log)) s := by
+  intro ls
+  induction ls with
+  | nil => intro s _; rfl
+  | cons l ls ih =>
+    intro s h
+    obtain ⟨h1, h2⟩ := h
+    cases hv : l.valuable with
+    | true =>
+      have : removeUnchanged (l :: ls) = l.log :: removeUnchanged ls := by
+        simp [removeUnchanged, List.filter, hv]
+      rw [this, List.map_cons, redo_cons, redo_cons]
+      exact ih _ h2
+    | false =>
+      have : removeUnchanged (l :: ls) = removeUnchanged ls := by
+        simp [removeUnchanged, List.filter, hv]
+      rw [this, List.map_cons, redo_cons, h1 hv]
+      rw [h1 hv] at h2
+      exact ih _ h2
+
+/-- cells: 1 = balance, 301 = storage slot 1 (uncommitted write), 2 = committed storage root -/
+def sLogs : List VL :=
+  [ { log := { key := 301, mergeable := false, writes := [(301, 2)] }, valuable := true },
+    -- SuicideLog of an account without balance, code hash or COMMITTED storage root: IsValuable says false,
+    -- but its Redo (SetSuicide) wipes the storage written a moment ago
+    { log := { key := 16, mergeable := false, writes := [(1, 0), (2, 0), (301, 0)] }, valuable := false } ]
+
+/-- **the SuicideLog that is not published**: executing (= replaying every log) leaves slot 1 empty, replaying the
+    published list keeps the value 2.  Real code: `w 3 sto 1 2; w 3 sui` in `hx c07`
+    (finding c07/redo-mismatch/suicide-log-not-published). -/
+theorem suicide_log_dropped_refuted :
+    redo (sLogs.map (·.log)) (fun _ => 0) 301 = 0 ∧ redo (removeUnchanged sLogs) (fun _ => 0) 301 = 2 ∧
+    ¬ DropOk sLogs (fun _ => 0) := by
+  refine ⟨by decide, by decide, ?_⟩
+  intro h
+  have h2 := h.2.1 rfl
+  have := congrFun h2 301
+  revert this
+  decide
+
+/-- non-vacuity of `DropOk`: a BalanceLog that restores the old value is dropped soundly -/
+example : DropOk [ { log := { key := 1, mergeable := true, writes := [(1, 0)] }, valuable := false },
+                   { log := { key := 301, mergeable := false, writes := [(301, 2)] }, valuable := true } ] (fun _ => 0) := by
+  refine ⟨fun _ => ?_, ⟨(fun h => by cases h), trivial⟩⟩
+  funext x
+  simp [apply, upd]
+
 end LemoProofs.C07Merge
